@@ -112,6 +112,31 @@ CHECKS.update({
         design='8 C06', note='TLC; policies are rendered as policy-file text by the harness; in-process peers are SSH2_Kex objects with recorded host keys/moduli', technique='exhaustive per-field TLC enumeration of (policy, peer) pairs replayed into Policy.evaluate and the CLI'),
 })
 
+CHECKS.update({
+    'C10': dict(category='model_checking',
+        text=("SshWire.tla holds independently written encoders and decoders on byte sequences (RFC 4251 mpint, SSH-1 mpint, name-lists) and the RFC 4253 padding "
+              "arithmetic; TLC checks RoundTrip, Minimal, ReEncode, LengthPrefix, Mp1BitCount on every magnitude up to MaxLen bytes over {00,01,7f,80,ff} with both signs and the "
+              "framing law for every payload length 0..4096, and encodes harness-chosen values (dense window, +-2^k+-1 up to 2^8192, word patterns, random). All pairs are "
+              "replayed into WriteBuf/ReadBuf; every payload length is sent through send_packet and read back by the tool's reader and an independent decoder; KEXINIT and "
+              "SSH-1 messages are round-tripped against the independent codec. The functions are pure: the assurance is the replay of TLC's enumeration."),
+        design='8 C10, 9', note='TLC; the independent codec harness/wire.py; SSH-1 CRC-32 values come from zlib (outside TLA+)', technique='TLC-checked reference codec; enumerated value/bytes pairs replayed into the buffer classes and packet framing'),
+    'C16': dict(category='model_checking',
+        text=("SshBanner.tla models the peer's identification exchange (other lines, banner built from parts, CR LF / LF) and the tool's reader (split, skip blank, header, "
+              "banner, decompose, sanitise, render); TLC checks BannerFound, HeaderIsOthers, PartsAreParts, RoundTrip, KnownProducts on the grammar's universe and emits wire bytes "
+              "with the expected header/parts/product; all cases are replayed into SSH_Socket.get_banner, Banner.parse, str(), Software.parse and a sample through the CLI."),
+        design='8 C16, 9', note='TLC; byte sequences are transported as JSON arrays; comments compared after whitespace collapsing', technique='TLC enumeration of the banner grammar with a reference reader; states replayed into the banner/software parsers and the CLI'),
+    'C17': dict(category='model_checking',
+        text=("The live tables are exported as JSON on every run and SshTablesCheck.tla states their cross-relations (names known, hardening policies free of failed "
+              "algorithms, shape, broken-primitive rule) as invariants TLC evaluates over every entry (exhaustive over the data); each built-in server policy's peer is "
+              "additionally audited by the real CLI and must show no failure."),
+        design='8 C17, 9', note='the extractor (harness/extract_tables.py) copies the tables of the working tree; TLC is a quantifier engine over that data', technique='TLC evaluation of table invariants over the extracted data (exhaustive)'),
+    'C18': dict(category='model_checking',
+        text=("SshTarget.tla defines parsing of every documented spelling with -p as default port, port validation, resolver family and the permitted address order; TLC evaluates "
+              "each case of the product (hosts x ports x spellings x argv/targets-file x -p x -4/-6/-46/-64 x resolver answers) and checks NoConnectionWhenRejected, "
+              "AttemptsAreOrderedPrefix, OnlyWantedFamilies, PortIsParsedPort; every getaddrinfo()/connect() of the real CLI run (probes and rate check included) and the report label are compared."),
+        design='8 C18', note=RATING_NOTE + '; the fake resolver', technique='TLC-evaluated target rule as oracle; resolver/connect calls of CLI runs compared'),
+})
+
 NOT_BUILT = {}
 
 
